@@ -20,7 +20,7 @@ use crate::{Meta, Property};
 pub struct C16;
 
 #[derive(Clone, Debug, Default)]
-struct AStatus {
+pub struct AStatus {
     volume: Option<u8>,
     state: usize, // 0 play 1 pause 2 stop
     repeat: bool,
@@ -40,9 +40,9 @@ struct AStatus {
     partition: Option<String>,
 }
 
-const NOPT: usize = 13;
+pub const NOPT: usize = 13;
 
-fn gen_status(r: &mut Rng, mask: u32) -> AStatus {
+pub fn gen_status(r: &mut Rng, mask: u32) -> AStatus {
     let on = |k: usize| mask & (1 << k) != 0;
     let pos = |r: &mut Rng| *r.pick(&[0usize, 1, 17, u32::MAX as usize, usize::MAX]);
     AStatus {
@@ -66,7 +66,7 @@ fn gen_status(r: &mut Rng, mask: u32) -> AStatus {
     }
 }
 
-fn status_fields(a: &AStatus, r: &mut Rng, permute: bool, extras: bool) -> Vec<(String, String)> {
+pub fn status_fields(a: &AStatus, r: &mut Rng, permute: bool, extras: bool) -> Vec<(String, String)> {
     // MPD's order (command/PlayerCommands.cxx handle_status)
     let mut f = Vec::new();
     if let Some(v) = a.volume {
